@@ -1,3 +1,4 @@
+// props: C07 C08
 // ---------------------------------------------------------------------------
 // C07 / C08: the header stream cipher, written from the statement:
 //   c_n = (x_n XOR key[n mod L]) + c_(n-1) mod 256, c_(-1) = 0        (L = 40 Vanilla, 20 TBC)
